@@ -11,6 +11,8 @@ import UnytModel.DriverBase
 import UnytModel.RegistryC12
 import UnytModel.RegistryC12Conv
 import UnytModel.Generated.RegistryC12Cfg
+import UnytModel.RegistryC12Alias
+import UnytModel.Generated.RegistryC12Alias
 
 namespace Unyt
 open RegC12
@@ -25,6 +27,9 @@ structure C12State where
   ptab : List (String × Except Err (PExpr Float)) := []
   /-- for every `c12.unit` line since the last reset: the string and the heap index it returned -/
   uret : Array (String × Option Nat) := #[]
+  /-- the family of registry objects over shared containers (`c12a.*`), with the regenerated in-place flags -/
+  acfg : ACfg := Generated.registryACfg
+  areg : AState Float := afresh (defaultLut Float)
 
 namespace C12State
 
@@ -158,6 +163,29 @@ def stepC12 (st : C12State) (fields : List String) : Option (C12State × String)
     match parseBool c, parseBool p, parseBool i, parseBool m with
     | some c, some p, some i, some m => some ({ st with cfg := ⟨c, p, i, m⟩ }, "ok")
     | _, _, _, _ => some (st, "bad-op")
+  | ["c12a.acfg"] =>
+    let b := fun (x : Bool) => if x then "1" else "0"
+    some (st, s!"ok\t{b st.acfg.derivedInPlace}\t{b st.acfg.cacheInPlace}")
+  | ["c12a.setacfg", d, c] =>
+    match parseBool d, parseBool c with
+    | some d, some c => some ({ st with acfg := ⟨d, c⟩ }, "ok")
+    | _, _ => some (st, "bad-op")
+  | ["c12a.reset"] => some ({ st with areg := afresh st.base }, "ok")
+  | ["c12a.copy", i] =>
+    match i.toNat? with
+    | some i => some ({ st with areg := acopy st.areg i }, s!"ok\t{st.areg.handles.length}")
+    | none => some (st, "bad-op")
+  | ["c12a.state"] =>
+    let cells := st.areg.handles.map fun hd =>
+      s!"{hd.cacheRef}:{hd.dsetRef}:{",".intercalate ((st.areg.caches hd.cacheRef).map (·.1))}:{",".intercalate (st.areg.dsets hd.dsetRef)}"
+    some (st, s!"ok\t{"|".intercalate cells}")
+  | "c12a.call" :: i :: op :: args =>
+    match i.toNat?, parseOpC12 (op :: args) with
+    | some i, some o =>
+      let (a', out) := astep st.acfg st.cfg st.pre st.parse st.areg i o
+      let st' := { st with areg := a' }
+      some (st', st'.outStr out)
+    | _, _ => some (st, "bad-op")
   | ["c12.parse", q, "atom", s] => some ({ st with ptab := (q, .ok (.atom s)) :: st.ptab }, "ok")
   | ["c12.parse", q, "prod", co, fac] =>
     match fb co, Factors.parse fac with
